@@ -2,16 +2,17 @@
    (1) With no late answer the operations are those of Model/C03_Controller.v.
    (2) A job that is set up when a late answer arrives is for a slot that has not passed at THAT
        moment (the clock after the wait), strictly later in a (re)start.
-   (3) Sync committee preparation jobs: the window's lower bound is the clock before the request
-       (as in the code); a job for a slot that passed during the wait can be set up (witness). *)
+   (3) Sync committee preparation jobs: the window is computed before the request, the first slot
+       is clamped to the clock once more when the answer has arrived (repaired code), so the same
+       holds for them. *)
 From Verif Require Import Lib.Base Model.C03_ChainTime Model.C03_Controller Model.C03_Spec Model.C03_Delay
      Proofs.C03_ChainTime Proofs.C03_Table Proofs.C03_Sched.
 From Coq Require Import ZifyBool ZifyN ZifyNat.
 Open Scope N_scope.
 
-(* the duty slot of an attestation / proposal job *)
+(* the duty slot of an attestation / proposal / sync committee preparation job *)
 Definition duty_slot (n : jname) : option N :=
-  match n with JAtt s | JProp s | JEarly s => Some s | _ => None end.
+  match n with JAtt s | JProp s | JEarly s | JSync s => Some s | JPrep _ => None end.
 
 Definition pd_notcur (pd : pending) : bool :=
   match pd with PAtt _ nc | PProp _ nc | PSync _ _ _ nc => nc end.
@@ -73,10 +74,25 @@ Section DelayProofs.
     intros x E. cbn in E. exact (Hn x (eq_sym E)).
   Qed.
 
-  (* with both clock readings equal it is the function of Model/C03_Controller.v *)
+  (* the window's first slot is never before the clock it was computed at *)
+  Lemma sync_window_fs_ge : forall ae cur ep,
+    let '(_, fs, _) := sync_window c ae cur ep in (fs <? cur) = false.
+  Proof.
+    intros ae cur ep. unfold sync_window.
+    match goal with |- context [if ?x <? cur then cur else ?x] => destruct (x <? cur) eqn:E end.
+    - apply N.ltb_irrefl.
+    - exact E.
+  Qed.
+
+  (* with both clock readings equal it is the function of Model/C03_Controller.v: the second
+     clamp does nothing when no time passes during the request *)
   Lemma sched_sync2_same : forall ae cur e ep nc t,
     sched_sync2 c ae cur cur e ep nc t = sched_sync c ae cur e ep nc t.
-  Proof. reflexivity. Qed.
+  Proof.
+    intros ae cur e ep nc t. unfold sched_sync2, sched_sync.
+    pose proof (sync_window_fs_ge ae cur ep) as H.
+    destruct (sync_window c ae cur ep) as [[fe fs] ls]. rewrite H. reflexivity.
+  Qed.
 
   (* a new preparation job lies in the window computed BEFORE the request and is not the slot
      current AFTER it when told so *)
@@ -100,7 +116,7 @@ Section DelayProofs.
   Lemma sched_sync2_new : forall ae cur0 cur1 e ep nc t s,
     texists (sched_sync2 c ae cur0 cur1 e ep nc t) (JSync s) = true -> texists t (JSync s) = false ->
     let '(_, fs, ls) := sync_window c ae cur0 ep in
-    fs <= s <= ls /\ ((s =? cur1) && nc = false).
+    fs <= s <= ls /\ cur1 <= s /\ ((s =? cur1) && nc = false).
   Proof.
     intros ae cur0 cur1 e ep nc t s H1 H0. unfold sched_sync2 in H1.
     destruct (negb (e_vals e)); [rewrite H0 in H1; discriminate|].
@@ -110,8 +126,10 @@ Section DelayProofs.
     destruct (sync2_fold_new (fun slot => (slot =? cur1) && nc)
                 (fun slot => {| j_name := JSync slot; j_time := sync_time c slot;
                                 j_pay := map (fun v => (v, 0, 0)) (sort_by (fun v => v) (dedup (v :: vs))) |})
-                (slot_range fs ls) t s (fun x => eq_refl) H1 H0) as [Hin Hg].
-    apply slot_range_in in Hin. split; [exact Hin | exact Hg].
+                (slot_range (if fs <? cur1 then cur1 else fs) ls) t s (fun x => eq_refl) H1 H0) as [Hin Hg].
+    apply slot_range_in in Hin. destruct (fs <? cur1) eqn:E.
+    - split; [lia | split; [lia | exact Hg]].
+    - split; [lia | split; [lia | exact Hg]].
   Qed.
 
   (* ----- the calls that were waiting ----- *)
@@ -122,9 +140,13 @@ Section DelayProofs.
     intros cur1 e pd t n s Hn H1 H0. destruct pd as [ep nc|ep nc|ae cur0 ep nc]; cbn [late pd_notcur] in *.
     - eapply sched_att_new_due; eassumption.
     - eapply sched_prop_new_due; eassumption.
-    - unfold texists in H1, H0. rewrite sched_sync2_frame in H1.
-      + rewrite H1 in H0. discriminate.
-      + intros x E. subst n. cbn in Hn. discriminate.
+    - destruct n as [x|x|x|x|x]; cbn in Hn; try discriminate; inversion Hn; subst x;
+        try (unfold texists in H1, H0; rewrite sched_sync2_frame in H1 by (intros y E; discriminate);
+             rewrite H1 in H0; discriminate).
+      pose proof (sched_sync2_new ae cur0 cur1 e ep nc t s H1 H0) as H.
+      destruct (sync_window c ae cur0 ep) as [[fe fs] ls]. destruct H as [_ [Hge Hnc]].
+      unfold due. rewrite Hnc. cbn [negb andb]. rewrite andb_true_r.
+      apply negb_true_iff. apply N.ltb_ge. exact Hge.
   Qed.
 
   Lemma late_fold_new_due : forall cur1 e ps t n s,
